@@ -698,6 +698,25 @@ class NpProxy(types.ModuleType):
             return obj.view(SA)
         return self.array(obj, dtype=dtype) if self._on() else np.asarray(obj, dtype=dtype, **k)
 
+    def _elementwise(self, f, pyf, x, *a, **k):
+        """ufuncs on object-dtype containers that mix proxies and plain Python numbers (numpy would call
+        x.sqrt() on a plain float and fail): applied cell by cell; pandas Series keep their index."""
+        if self._on() and getattr(x, 'dtype', None) == object and not isinstance(x, SA):
+            if hasattr(x, 'map') and hasattr(x, 'index'):          # pandas Series
+                return x.map(pyf)
+            if isinstance(x, np.ndarray):
+                return np.frompyfunc(pyf, 1, 1)(x)
+        return f(x, *a, **k)
+
+    def sqrt(self, x, *a, **k):
+        return self._elementwise(np.sqrt, _sqrt, x, *a, **k)
+
+    def log(self, x, *a, **k):
+        return self._elementwise(np.log, _log, x, *a, **k)
+
+    def exp(self, x, *a, **k):
+        return self._elementwise(np.exp, _exp, x, *a, **k)
+
     def prod(self, a, *args, **k):
         self.observed.append(('prod', a))
         return np.prod(a, *args, **k)
